@@ -21,7 +21,18 @@ D = {
  'C14_a': ('C14', 'TransitionT copy assignment never clears payloadSet', 'a slot that held a payloaded transition is overwritten by a payload-less one (next step, or substituted round)'),
  'C15_a': ('C15', 'payload copy of updatePlan drops the special case for cyclic tasks', 'plans + PayloadT<> configured, a cyclic task X->X followed by X->Y, X succeeds'),
  'C17_a': ('C17', 'RHalfCST adds LHalf ORTHO_UNITS instead of ORTHO_COUNT to the ortho index', 'an orthogonal region with >= 9 sub-states in the left half of a composite, another region in the right half'),
- 'C16_a': ('C16', '', ''),
+ 'C16_a': ('C16', 'cancelPendingTransitions() logs only the first cancellation of a guard pass', 'logger attached, two orthogonal siblings both cancel in the same guard pass'),
+ 'C01_b': ('C01', 'requestImmediate (generic registry) third loop no longer marks the orthogonal prong of already-active forks above the destination', 'orthogonal region with two nested composite levels in one prong, both active, destination an INACTIVE region (not a leaf)'),
+ 'C02_b': ('C02', 'Bits/CBits::operator bool computes the last unit as (width-1)/8 and masks it with width%8: empty mask when width is a multiple of 8', 'an orthogonal region with exactly 8 (16, ..) sub-states entered from outside with a destination below a nested region'),
+ 'C03_b': ('C03', 'CS_::wideReenter picks the half with prong <= L_PRONG instead of prong < R_PRONG', 'a composite region of width >= 4, active sub-state at a non-first position of a left half, restarted in place'),
+ 'C04_b': ('C04', 'O_::deepForwardEntry/ExitGuard lost the fall-back that forwards to all prongs when none is individually requested', 'orthogonal ROOT and a request whose destination is the root itself: no guard runs, the round is applied'),
+ 'C05_b': ('C05', 'ConstControlT::resetRegion() also clears _consumed', 'consumeQuery() in a nested region with a later orthogonal sibling (TopDown) or enclosing heads (BottomUp)'),
+ 'C06_b': ('C06', 'BitArrayT::set() masks the last unit with (CAPACITY-1)%8: the highest valid bit stays clear', 'STATE_COUNT % 8 != 0, a plan task whose origin is the LAST state, another plan-owning region processed first in the same step'),
+ 'C07_b': ('C07', 'PlanT::remove() no longer resets link.prev of the freed slot', 'remove a non-first task, append into an empty plan (reuses the slot), remove that head'),
+ 'C08_b': ('C08', 'CS_::wideLoadRequested picks the half with prong <= L_PRONG', 'a composite region of width >= 4 whose active sub-state at a non-first left-half position is itself a region'),
+ 'C10_b': ('C10', 'TaskT copy constructor never sets payloadSet', 'plans + payload, a task appended with a payload, the instance copied while the plan is outstanding'),
+ 'C12_b': ('C12', 'deepReportRandomize/deepReportChangeRandom return early when the head utility is 0, skipping resolveRandom', 'a Random region (head utility 0) nested in an orthogonal region that is a sub-state of a Random region'),
+ 'C13_b': ('C13', 'isPendingEnter (generic registry) hops at most one orthogonal level', 'an orthogonal region nested directly in an orthogonal region, a request entering the outer one'),
 }
 for sid, (pid, what, needs) in D.items():
     p = os.path.join('/verif/seeded', sid, 'meta.json')
